@@ -322,6 +322,8 @@ func runC15(c *Check) {
 				}
 				if cv, ok := l.V.(*ssa.Call); ok && l.Op == "call" && cv.Common().StaticCallee() == root {
 					fresh = true
+				} else if why := soundRootCache(p, leaf, root, exec, initc, final); why == "" {
+					fresh = true // a remembered root that every writer of the datastore refreshes
 				} else {
 					fresh = false
 					bad = trunc(leaf.String(), 80)
@@ -489,4 +491,69 @@ func runC15(c *Check) {
 	c.MinInstances("C15-R2", 3)
 	c.MinInstances("C15-R3", 4)
 	c.MinInstances("C15-R4", 2)
+}
+
+// soundRootCache: leaf is a load of a receiver field that remembers the state root. That is as
+// good as recomputing iff (a) every store to the field, anywhere in the package, stores the
+// result of the state-root function, and (b) in every function that commits or puts to the
+// datastore, each such write is followed by a store to the field before the function returns
+// successfully. Returns "" if sound, else the reason.
+func soundRootCache(p *Prog, leaf *Term, root *ssa.Function, fns ...*ssa.Function) string {
+	l := leaf.unconv()
+	if l.Op != "field" || len(l.Args) != 1 || l.Args[0].Op != "param" {
+		return "not a remembered root"
+	}
+	field := l.Name
+	isFieldStore := func(n *Node) bool {
+		st, ok := n.In.(*ssa.Store)
+		if !ok {
+			return false
+		}
+		fa, ok := st.Addr.(*ssa.FieldAddr)
+		return ok && fieldLabel(fa.X.Type(), fa.Field) == field
+	}
+	for _, fn := range p.Funcs {
+		pk := fnPkg(fn)
+		if pk == nil || pk.Pkg.Path() != kvPkg {
+			continue
+		}
+		for _, b := range fn.Blocks {
+			for _, in := range b.Instrs {
+				st, ok := in.(*ssa.Store)
+				if !ok {
+					continue
+				}
+				fa, ok := st.Addr.(*ssa.FieldAddr)
+				if !ok || fieldLabel(fa.X.Type(), fa.Field) != field {
+					continue
+				}
+				v := TermOf(st.Val, &Ctx{Fn: fn})
+				okV := false
+				for _, alt := range flattenPhi(v) {
+					a := alt
+					if a.Op == "extract" {
+						a = a.Args[0]
+					}
+					cv, isCall := a.V.(*ssa.Call)
+					okV = isCall && a.Op == "call" && cv.Common().StaticCallee() == root
+					if !okV {
+						return "the remembered root " + field + " is set in " + fnShort(fn) + " from " + trunc(alt.String(), 60) + ", not from the state-root function"
+					}
+				}
+			}
+		}
+	}
+	for _, fn := range fns {
+		g := BuildECFG(p, fn, ExpandOpts{MaxDepth: 1, Stop: func(f *ssa.Function) bool { return f == root }})
+		// only the transaction batch changes hashed keys (the keys written outside it are excluded
+		// from the root: C15-R1)
+		writes := g.Select(func(n *Node) bool { return dsCall(n, "Commit") })
+		if len(writes) == 0 {
+			continue
+		}
+		if g.PathAvoiding(writes, g.SuccessExits(), isFieldStore) != nil {
+			return fnShort(fn) + " writes the datastore and can return without refreshing the remembered root " + field
+		}
+	}
+	return ""
 }
